@@ -96,6 +96,8 @@ def walk_check(tree: Any, src: str) -> tuple[str, Any] | None:
                 return (f"WALK span-end-before-start {cls.__name__}", {"path": path, "pos": pos})
             if not (1 <= l0 <= nlines and 1 <= l1 <= nlines):
                 return (f"WALK span-line-outside-source {cls.__name__}", {"path": path, "pos": pos, "nlines": nlines})
-            if not (0 <= c0 <= len(lines[l0 - 1]) and 0 <= c1 <= len(lines[l1 - 1])):
+            # a column may point just past the line's newline character (the end of a token that ends the line)
+            nl0, nl1 = int(l0 < nlines), int(l1 < nlines)
+            if not (0 <= c0 <= len(lines[l0 - 1]) + nl0 and 0 <= c1 <= len(lines[l1 - 1]) + nl1):
                 return (f"WALK span-column-outside-line {cls.__name__}", {"path": path, "pos": pos})
     return None
